@@ -147,6 +147,8 @@ class LoopMixin:
                             raise Unsupported("enumerate over a filtered symbolic list")
                         out.append(Seg(s.lid, s.pidx, s.hi, s.g, s.cond, STuple([SInt(s.g), s.mapv])))
                 return out
+            if rec.cls == "$cursor":  # iterating a cursor = iterating its fetchall()
+                return self.iter_segments(self.call(self.getattr(it, "fetchall"), [], {}))
             if rec.cls == "$dict_items":
                 d = rec.fields["d"]
                 drec = self.st.dicts[d.did]
